@@ -545,7 +545,7 @@ fn random_srw(rng: &mut Rng, id: usize) -> Srw {
     let racts = (0..n)
         .map(|_| match rng.below(10) {
             0 => RAct::Eof,
-            1 => RAct::Err([2u8, 3, 4, 5, 6][rng.below(5)]),
+            1 => RAct::Err([2u8, 3, 4, 5, 6, 1, 0][rng.below(7)]),
             2 => RAct::Data(1 + rng.below(4), true),
             3 => RAct::Data(8 + rng.below(10), false),
             _ => RAct::Data(1 + rng.below(5), false),
@@ -555,7 +555,7 @@ fn random_srw(rng: &mut Rng, id: usize) -> Srw {
     let wacts = (0..m)
         .map(|_| match rng.below(6) {
             0 => WAct::Zero,
-            1 => WAct::Err([2u8, 3, 5, 6][rng.below(4)]),
+            1 => WAct::Err([2u8, 3, 5, 6, 1, 0][rng.below(6)]),
             2 => WAct::Part([1usize, 2, 3, 8, 15, 16, 63][rng.below(7)]),
             _ => WAct::Full,
         })
@@ -616,7 +616,7 @@ pub fn big_writes(mode: &str, w: &mut impl std::io::Write) -> usize {
     let lens: [usize; 4] = [(1usize << 31) - 1, 1usize << 31, (1usize << 31) + 5, (1usize << 32) + 1];
     let big: Vec<u8> = vec![0u8; lens[3]]; // zero pages, never touched
     let mut acts: Vec<WAct> = vec![WAct::Full, WAct::Part(7), WAct::Zero];
-    acts.extend((2u8..=38).map(WAct::Err));
+    acts.extend((0u8..=38).map(WAct::Err));
     for &len in &lens {
         for a in &acts {
             let astr = match a {
@@ -804,8 +804,9 @@ pub fn run(mode: &str, thorough: bool, seed: u64, w: &mut impl std::io::Write) {
     let bw = big_writes(mode, w);
     eprintln!("STAT ad big_writes={} lengths=2^31-1,2^31,2^31+5,2^32+1", bw);
     n += bw;
-    // every error kind std::io knows: from first, from second / inner, on reads, writes and flushes
-    for kind in 2u8..=38 {
+    // every error kind std::io knows — InvalidData and UnexpectedEof (kinds 0, 1: the library's OWN error kinds, which a
+    // collaborator may produce just as well) included: from first, from second / inner, on reads, writes and flushes
+    for kind in 0u8..=38 {
         let ops = vec![AdOp::Read(4), AdOp::Write(b"xy".to_vec()), AdOp::Flush, AdOp::Read(4), AdOp::Write(b"z".to_vec()), AdOp::Read(4)];
         if mode == "chain" {
             let mut s1 = mk(1, b"AB", vec![RAct::Err(kind), RAct::Data(1, false)]);
